@@ -39,6 +39,7 @@ def parseAct (s : String) : Option PAct :=
     else if k = "failed" then some (.payEnd (.payFailed false))
     else if k = "failedwarn" then some (.payEnd (.payFailed true))
     else if k = "err" then some (.payEnd .rpcErr)
+    else if k = "conn" then some (.payEnd .rpcErr)      -- the connection could not be opened: same continuation
     else if k.startsWith "complete" then (k.drop 8).toString.toNat?.map (fun x => .payEnd (.payComplete x))
     else none
   else if s.startsWith "r" then
